@@ -20,7 +20,7 @@ THEOREMS = [
     "dt_sub_dt_exact", "dt_rsub_dt_exact", "add_sub_cancel", "dt_cmp_agrees", "reflected_aliases",
     "mixed_result_kind", "mixed_cmp_trichotomy", "mixed_cmp_swap", "mixed_add_dt_error", "mixed_add_ht_error",
     "mixed_td_plus_dtabs_error", "mixed_td_plus_htabs_error",
-]
+    "cmpInt_trichotomy", "cmpHt_is_cmpInt", "mixed_cmp_ht_total", "mixed_cmp_ht_out_of_range"]
 RULE = ("operand pairs from the 128-bit edge lattice squared (carry from fraction into seconds, negatives with "
         "non-zero fraction, results at ±2^127∓1, zero divisors) plus seeded random pairs; every operator of "
         "TimeDelta/DateTime on bintime operands is checked against Python big-int arithmetic on .ticks and against "
@@ -187,6 +187,12 @@ def check_mixed(ctx, op, l, r, tv):
         for name in ("lt", "eq", "gt"):
             oo = outcome(OPS[name], lv, rv)
             rs[name] = oo
+        both_times = l[0][2:] == r[0][2:] and l[0][2:] in ("Td", "Dt")
+        if both_times and not all(x[0] == "ok" for x in rs.values()):
+            # a comparison of two valid (UTC) time values is a question with an answer: it never raises, however far apart the ranges
+            # of the two types are (a bintime value beyond hightime's range is simply beyond every hightime value)
+            bad = next(k for k, x in rs.items() if x[0] != "ok")
+            ctx.violation(op="trichotomy", left=l, right=r, observed=f"{bad}: {show(rs[bad])}", required="exactly one of <, ==, > holds (no exception)")
         if all(x[0] == "ok" for x in rs.values()):
             if sum(1 for x in rs.values() if x[1] is True) != 1:
                 ctx.violation(op="trichotomy", left=l, right=r, observed={k: v[1] for k, v in rs.items()},
